@@ -223,6 +223,70 @@ def run_sql(engine, rel, reverse: bool):
     return out
 
 
+def stmt_shape(ex) -> dict:
+    """Coarse, alias-free shape of a real SQLAlchemy statement (the counterpart of
+    RA_SqlCompile!Shape): nesting of selects / unions / joins / subqueries, DISTINCT,
+    presence of WHERE / ON, ORDER BY directions, OFFSET, LIMIT, output column names."""
+    from sqlalchemy.sql import elements, operators, selectable
+
+    def order_of(e):
+        out = []
+        for c in e._order_by_clauses:
+            if isinstance(c, elements._label_reference):      # ORDER BY of a compound select refers to labels
+                c = c.element
+            desc = isinstance(c, elements.UnaryExpression) and c.modifier is operators.desc_op
+            out.append(not desc)
+        return out
+
+    def off_lim(e):
+        off = e._offset if e._offset_clause is not None else 0
+        lim = e._limit if e._limit_clause is not None else -1
+        return int(off or 0), int(lim)
+
+    def from_shape(f):
+        if isinstance(f, selectable.Join):
+            on = f.onclause
+            inner = getattr(on, "element", on)       # literal(True) is wrapped in AsBoolean
+            trivial = isinstance(on, elements.True_) or (isinstance(inner, elements.BindParameter) and inner.value is True)
+            return {"f": "join", "l": from_shape(f.left), "r": from_shape(f.right), "on": not trivial}
+        if isinstance(f, selectable.Subquery):
+            inner = f.element
+            if isinstance(inner, selectable.Select) and not inner.get_final_froms():
+                return {"f": "table", "id": "lit"}          # SELECT <literals>: engine-made doomed / identity payload
+            return {"f": "subq", "s": stmt_shape(inner)}
+        if isinstance(f, selectable.FromGrouping):       # a parenthesised join on the right-hand side of a join
+            return from_shape(f.element)
+        if isinstance(f, selectable.Alias):
+            return from_shape(f.element)
+        if isinstance(f, selectable.TableClause):
+            return {"f": "table", "id": f.name.upper()}
+        return {"f": type(f).__name__}
+
+    if isinstance(ex, selectable.CompoundSelect):
+        a, b = ex.selects
+        off, lim = off_lim(ex)
+        return {"q": "union", "all": ex.keyword.name == "UNION_ALL", "l": stmt_shape(a), "r": stmt_shape(b),
+                "order": order_of(ex), "off": off, "lim": lim}
+    froms = ex.get_final_froms()
+    off, lim = off_lim(ex)
+    return {"q": "select", "cols": sorted(k for k in ex.selected_columns.keys() if k != "IGNORED"),
+            "from": from_shape(froms[0]) if froms else {"f": "table", "id": "lit"},
+            "where": ex.whereclause is not None, "distinct": bool(ex._distinct), "order": order_of(ex), "off": off, "lim": lim}
+
+
+def norm_model_shape(s):
+    if isinstance(s, dict):
+        out = {k: norm_model_shape(v) for k, v in s.items()}
+        if out.get("f") == "table" and out.get("id") in ("Z", "Z0", "I"):
+            out["id"] = "lit"
+        if "cols" in out and isinstance(out["cols"], list):
+            out["cols"] = sorted(out["cols"])
+        return out
+    if isinstance(s, list):
+        return [norm_model_shape(v) for v in s]
+    return s
+
+
 def bag(rows):
     return Counter(json.dumps(r, sort_keys=True) for r in rows)
 
@@ -277,6 +341,16 @@ def replay_state(st: dict, out: dict, want_event: bool, want_rejects: bool = Tru
         except Exception as exc:  # noqa: BLE001
             V(["C08"], f"compilation raised {type(exc).__name__}: {exc}")
     else:
+        try:
+            real_shape = stmt_shape(w.sql.to_executable(rel))
+            if real_shape != norm_model_shape(st["shape"]):
+                out["n_drift"] += 1
+                cnt["statement_shape_drift"] = cnt.get("statement_shape_drift", 0) + 1
+                if len(out["drift"]) < 3:
+                    out["drift"].append({"what": "compiled statement differs in shape from the compilation model", "case": case,
+                                         "real": real_shape, "model": norm_model_shape(st["shape"])})
+        except Exception:  # noqa: BLE001 - reported below by the execution step
+            pass
         for reverse in (False, True):
             try:
                 results.append(run_sql(w.sql, rel, reverse))
